@@ -20,7 +20,12 @@ import (
 )
 
 func TestMain(m *testing.M) {
-	logger.Disable()
+	switch os.Getenv("VERIF_DEBUG") {
+	case "":
+		logger.Disable()
+	case "2":
+		logger.SetDebug()
+	}
 	os.Exit(m.Run())
 }
 
